@@ -46,3 +46,7 @@ pub use stream_tx::UtpStreamWriteHalf;
 pub use traits::Transport;
 
 type Payload = Vec<u8>;
+
+// Verification hooks: compiled only with RUSTFLAGS="--cfg librqbit_utp_verif".
+#[cfg(librqbit_utp_verif)]
+pub mod verif;
